@@ -208,7 +208,7 @@ theorem readPiece_of_complete {t : State} (i : Nat) (hc : t.pieces[i]? = some PS
     ∃ x, readPiece t (i : Int) = .bytes x := by
   have hlt := lt_of_getElem?_some hc
   unfold readPiece
-  rw [if_neg (by omega), if_neg (by omega)]
+  rw [if_neg (by omega)]
   simp only [Int.toNat_natCast, hc]
   exact ⟨_, rfl⟩
 
